@@ -496,6 +496,7 @@ def main(run):
             _batched_oracle(run, rng, ph, prim, rec, cp, q_comm if method == "wang" else q_comm_bz, q_gen, n1, plain, sc, sc_dd, method, info, thorough)
     common.switch_variant("omp")
     _full_terms_stream(run, rng, thorough)
+    _sequence_stream(run, rng, thorough)
     _glist_observations(run, rng, thorough)
 
     out = common.lean_run_driver("C08", lines)
@@ -658,6 +659,105 @@ def _glist_observations(run, rng, thorough):
                 "no-op fails beyond the stated precision (Lean: minGRad_insufficient, g_list_complete; proposed_fixes/c08-glist-index-radius.*)",
         "cases": obs,
     }
+
+
+def _sequence_stream(run, rng, thorough):
+    """Sequences on ONE DynamicalMatrixWang / DynamicalMatrixGL object: compute, reassign nac_params through the public
+    setter (new values, zero Born charges, back), change the masses of the primitive cell, compute again; every step is
+    compared with a freshly built object in the current state and with the closed forms."""
+    from phonopy.harmonic.dynamical_matrix import DynamicalMatrix, DynamicalMatrixGL, DynamicalMatrixWang, run_dynamical_matrix_solver_c
+    from phonopy.harmonic.dynmat_to_fc import get_commensurate_points
+    from phonopy.structure.brillouin_zone import BrillouinZone
+    from phonopy.structure.symmetry import symmetrize_borns_and_epsilon
+
+    names = ["nacl_prim", "triclinic", "cscl", "zincblende_prim", "mono_P", "wurtzite"]
+    for c in range(6 if thorough else 2):
+        name = names[(c + run.seed) % len(names)]
+        cell, cen = _cell(name)
+        S = np.diag([2, 1, 1]) if c % 2 == 0 else np.diag([1, 2, 1])
+        variant = "omp" if c % 2 == 0 else "ser"
+        common.switch_variant(variant)
+        ph = gen.make_phonopy(cell, S, pmat="P")
+        prim, sc = ph.primitive, ph.supercell
+        full = rng.choice([True, False])
+        phi = U.pair_fc(sc, 0.8 * gen.min_lattice_vector(sc.cell))
+        from phonopy.harmonic import force_constants as F
+
+        fc = phi if full else F.full_fc_to_compact_fc(prim, phi)
+        rec = np.linalg.inv(prim.cell)
+
+        def params(zero=False):
+            b, e = U.random_born_eps(rng, len(prim))
+            b = b - b.mean(axis=0)
+            Z, E = symmetrize_borns_and_epsilon(b, e, prim)
+            return {"born": np.zeros_like(Z) if zero else Z, "dielectric": E, "factor": rng.choice([14.4, 2.0, 1.0, 51.42])}
+
+        A, B, Zr = params(), params(), params(zero=True)
+        cp = get_commensurate_points(np.rint(np.linalg.inv(prim.primitive_matrix)).astype(int))
+        bz = BrillouinZone(rec)
+        bz.run(cp)
+        q_c = np.array(bz.shortest_qpoints[1][0])
+        q_g = np.array([rng.randint(-16, 16) / 16.0 + 0.0191 for _ in range(3)])
+        n = np.array([rng.randint(-8, 8) / 4.0 + 0.15 for _ in range(3)])
+        if not (_margin_ok(rec, np.zeros(3), n) and _margin_ok(rec, q_g, None) and _margin_ok(rec, q_c, None)):
+            continue
+        masses0 = np.array(prim.masses, dtype="double")
+
+        def evaluate(d):
+            out = []
+            for qv, dr in ((np.zeros(3), n), (q_g, None), (q_c, None)):
+                d.run(qv, q_direction=dr)
+                out.append(np.array(d.dynamical_matrix))
+            out.append(np.array(run_dynamical_matrix_solver_c(d, np.array([np.zeros(3), q_g, q_c, q_g]), n)))
+            return out
+
+        def plain_mats():
+            p = DynamicalMatrix(sc, prim, fc.copy())
+            out = []
+            for qv in (np.zeros(3), q_g, q_c):
+                p.run(qv)
+                out.append(np.array(p.dynamical_matrix))
+            return out
+
+        for cls, method in ((DynamicalMatrixWang, "wang"), (DynamicalMatrixGL, "gonze")):
+            dm = cls(sc, prim, fc.copy(), nac_params=A)
+            evaluate(dm)
+            steps = [("new-values", B, None), ("zero-born", Zr, None), ("masses-changed", None, masses0 * np.array([1.5 + 0.25 * k for k in range(len(masses0))])),
+                     ("back", A, None), ("masses-restored", None, masses0)]
+            state = A
+            for tag, P, m in steps:
+                if P is not None:
+                    dm.nac_params = P
+                    state = P
+                if m is not None:
+                    prim.masses = m
+                got = evaluate(dm)
+                fresh = evaluate(cls(sc, prim, fc.copy(), nac_params=state))
+                pl = plain_mats()
+                scale = max(1.0, max(float(np.abs(x).max()) for x in pl))
+                info = dict(cell=name, smat=S.tolist(), layout="full" if full else "compact", variant=variant, method=method, step=tag,
+                            sequence=[t for t, _, _ in steps], born=np.asarray(state["born"]).tolist(), dielectric=np.asarray(state["dielectric"]).tolist(),
+                            factor=state["factor"], q_generic=q_g.tolist(), q_commensurate=q_c.tolist(), direction=n.tolist())
+                run.case(("sequence", name, S.tolist(), full, method, tag, np.asarray(state["born"]).tobytes()), nontrivial=True)
+                run.count("nac_params/masses sequence steps (%s)" % method, section="oracle")
+                dev = max(U.maxdiff(g, f) for g, f in zip(got, fresh))
+                problems = []
+                if dev > 1e-12 * scale:
+                    problems.append("differs from a freshly built object in the same state by %.3g" % dev)
+                f_now = float(dm.nac_factor)
+                pred = _closed_form(prim, np.array(dm.born), np.array(dm.dielectric_constant), f_now, n)
+                scd = max(scale, float(np.abs(pred).max()))
+                if not U.close(got[0] - pl[0], pred, TOL, scd):
+                    problems.append("Gamma limit differs from the closed form of the CURRENT parameters by %.3g" % U.maxdiff(got[0] - pl[0], pred))
+                if not U.close(got[2], pl[2], TOL if method == "wang" else 1e-3, scd):
+                    problems.append("commensurate no-op off by %.3g" % U.maxdiff(got[2], pl[2]))
+                if tag == "zero-born" and not U.close(got[1], pl[1], 1e-9, scale):
+                    problems.append("zero Born charges change D at a general q by %.3g" % U.maxdiff(got[1], pl[1]))
+                if problems:
+                    run.violation("DynamicalMatrixNAC.nac_params setter" if P is not None or tag in ("zero-born",) else "Primitive.masses setter",
+                                  "stale-after-reassign-%s" % method, "after step '%s': " % tag + "; ".join(problems), info)
+            prim.masses = masses0
+    common.switch_variant("omp")
 
 
 def _full_terms_stream(run, rng, thorough):
